@@ -22,7 +22,7 @@ RULE = (
     "plaintext/noise session) + a sequence of 1..40 write calls, each a batch of 1..8 (type, payload) packets; "
     "type ids: every registered id + varint/16-bit boundaries; payload sizes 0,1,127,128,16383,16384,65515 and random. "
     "Each write is decoded by an independent decoder (minimal varints; Noise: explicit nonce = number of frames "
-    "previously written). non-trivial = a batch with >=2 packets, or a boundary length/type, or a Noise write index >= 2."
+    "previously written); optionally the transport's pause_writing/resume_writing callbacks and loop turns between calls. non-trivial = a batch with >=2 packets, or a boundary length/type, or a Noise write index >= 2."
 )
 ASSUMPTIONS = [
     "Noise payloads above 65515 bytes are outside the documented frame size and are not generated",
@@ -68,7 +68,20 @@ def run_case(case: dict) -> CaseResult:
         h, conn, tr, r = _noise_session(key)
         base = len(tr.writes)
     frames_written = 0
+    flow = case.get("flow") or {}
     for ci, batch in enumerate(calls):
+        # transport flow-control callbacks (pause_writing / resume_writing) and loop turns between the write calls:
+        # every batch is still one immediate write, in call order
+        for act in flow.get(str(ci), []):
+            classes.add("flow_control")
+            if act == "pause":
+                h.pause_writing()
+            elif act == "resume":
+                h.resume_writing()
+            elif act == "turn":
+                import asyncio
+
+                fstub.loop().run_until_complete(asyncio.sleep(0))
         before = len(tr.writes)
         try:
             h.write_packets(list(batch), False)
@@ -183,6 +196,8 @@ def _case(draw, tier):
             batch.append([t, spec])
         calls.append(batch)
     case = {"mode": mode, "calls": calls}
+    if draw(st.integers(0, 3)) == 0:
+        case["flow"] = {str(i): draw(st.lists(st.sampled_from(["pause", "resume", "turn"]), min_size=1, max_size=3)) for i in range(len(calls)) if draw(st.booleans())}
     if mode == "noise":
         case["key"] = draw(st.one_of(st.binary(min_size=32, max_size=32), st.sampled_from([bytes(32), b"\xff" * 32]))).hex()
     return case
@@ -210,6 +225,13 @@ def enumerated(tier):
         yield {"mode": "plain", "calls": [[[t, {"h": "ff"}]]]}
         if t <= 65535:
             yield {"mode": "noise", "key": key, "calls": [[[t, {"h": "ff"}]]]}
+    for mode in ("plain", "noise"):
+        c = {"mode": mode, "calls": [[[7, {"h": ""}]], [[33, {"h": "0801"}], [30, {"h": "10"}]], [[8, {"h": ""}]], [[62, {"h": "08011001"}]], [[9, {"h": ""}]]],
+             "flow": {"1": ["pause"], "3": ["resume"], "4": ["turn"]}}
+        if mode == "noise":
+            c["key"] = key
+        yield c
+        yield {**c, "flow": {"0": ["pause"], "1": ["turn"], "2": ["resume", "turn"], "4": ["pause", "resume"]}}
     from vf.props import c02_api
 
     yield from c02_api.enumerated(tier)
